@@ -2,6 +2,9 @@
 From DynVerif Require Import Base Graph Spec.
 From DynVerif.proofs Require Import CoreInv C01Facts SnapInv.
 From Coq Require Import Sorting.Sorted.
+From DynVerif Require Import Derived Stats PySupportStats.
+From DynVerif.gen Require Import PyGenStats.
+From DynVerif.proofs Require Import PyGenStatsEq.
 
 Lemma reach_InvSnap dir cs : InvSnap (run_calls (G0 dir) cs).
 Proof. apply (InvSnap_run cs (G0 dir) []); [reflexivity|apply Inv_init|apply InvSnap_init]. Qed.
@@ -53,6 +56,13 @@ Proof.
   rewrite sortZ_length, map_length. reflexivity.
 Qed.
 Print Assumptions C04_avg.
+
+(** source-level tie: the Gallina text GENERATED from DynGraph.temporal_snapshots_ids / avg_number_of_nodes (tools/py2gallina_stats.py,
+    regenerated from /repo on every run) is the model function, for every graph state *)
+Theorem C04_source_text : forall g,
+  py_temporal_snapshots_ids g = snapshot_ids g /\ py_avg_number_of_nodes g = avg_number_of_nodes g.
+Proof. intros g. split; [apply py_temporal_snapshots_ids_eq|apply py_avg_number_of_nodes_eq]. Qed.
+Print Assumptions C04_source_text.
 
 Example C04_example :
   let g := run_calls (G0 false) [mkCall 1 2 0 (Some 3); mkCall 2 1 2 (Some 5); mkCall 1 3 1 None; mkCall 1 3 1 None] in
